@@ -391,7 +391,7 @@ def run_api(fs, call, log, inject=None):
             try:
                 b = asm.assemble(target, **kw)
                 out = {'ok': True, 'bytes': bytes(b).hex(), 'labels': dict(l_obj) if l_obj is not None else None,
-                       'constants': dict(c_obj) if c_obj is not None else None}
+                       'constants': dict(c_obj) if c_obj is not None else None, 'raw': b}
             except asm.AssemblerError as e:
                 ln = getattr(e, 'line', None)
                 out = {'ok': False, 'exc': 'AssemblerError', 'is_asm_error': True, 'msg': getattr(e, 'message', str(e)),
